@@ -98,13 +98,31 @@ def run_grammar(tier='quick', only=None):
                           open(os.path.join(E.HERE, 'grun.py')).read() + open(os.path.join(E.VERIF, 'mirsym', 'interp.py')).read() +
                           open(os.path.join(E.VERIF, 'mirsym', 'models.py')).read()).encode()).hexdigest()[:20]
     cpath = os.path.join(E.VERIF, 'build', 'gcache_%s.json' % key)
-    if only is None and os.path.exists(cpath):
-        try:
-            d = json.load(open(cpath))
-            d['cached'] = True
-            return d
-        except Exception:
-            pass
+
+    def load_cached():
+        if only is None and os.path.exists(cpath):
+            try:
+                d = json.load(open(cpath))
+                d['cached'] = True
+                return d
+            except Exception:
+                pass
+        return None
+    d = load_cached()
+    if d is not None:
+        return d
+    if only is None:
+        # several checks started together need the same whole-grammar run: one computes it, the others wait for the cache
+        import build
+        with build.Lock('grun'):
+            d = load_cached()
+            if d is not None:
+                return d
+            return _run_grammar(tier, only, prog, prods, cpath)
+    return _run_grammar(tier, only, prog, prods, cpath)
+
+
+def _run_grammar(tier, only, prog, prods, cpath):
     t0 = time.time()
     names = sorted(prods) if only is None else [n for n in sorted(prods) if any(o in n for o in only)]
     max_paths, time_cap = (800, 6) if tier == 'quick' else (4000, 40)
